@@ -1,17 +1,26 @@
 #!/bin/bash
 # usage: seedrun.sh <patch> [props...]  -> prints which properties fire on a scratch copy with the patch applied
+# (one process for all properties: nbsa.seedmatrix; SEEDRUN_JSON=<file> keeps the full finding list as JSON lines)
 P=$1; shift
-PROPS="$@"
-if [ -z "$PROPS" ]; then PROPS=$(python3 -c "
-import json;print(' '.join(c['property_id'] for c in json.load(open('/verif/MANIFEST.json'))['checks']))"); fi
-W=$(mktemp -d /var/tmp/nbwt.XXXXXX)
-trap 'rm -rf "$W"' EXIT
-rsync -a --exclude target --exclude .git /repo/ "$W/"
-( cd "$W" && patch -p1 -s < "$P" ) || { echo "PATCH FAILED"; exit 2; }
-for c in $PROPS; do
-  out=$(/verif/vf check "$c" --repo "$W" 2>&1)
-  if echo "$out" | grep -q "^VIOLATION"; then
-     echo "FIRES $c: $(echo "$out" | grep '  rule=' | sed 's/^  //' | sort -u | head -4 | tr '\n' ';' | cut -c1-400)"
-  fi
-done
+J=${SEEDRUN_JSON:-$(mktemp /var/tmp/nbsr.XXXXXX)}
+cd /verif && python3 -m nbsa.seedmatrix "$P" "$@" > "$J" 2>&1
+python3 - "$J" <<'PY'
+import sys, json, collections
+d = collections.OrderedDict()
+bad = []
+for l in open(sys.argv[1]):
+    try:
+        j = json.loads(l)
+    except ValueError:
+        bad.append(l.rstrip()); continue
+    if "error" in j:
+        print("PATCH FAILED")
+    if "rule" in j:
+        d.setdefault(j["property"], []).append("rule=%s instance=%s" % (j["rule"], j["key"]))
+for p, v in d.items():
+    print("FIRES %s: %s" % (p, ";".join(sorted(set(v))[:4])[:400]))
+for b in bad[-5:]:
+    print("ERR " + b[:300])
+PY
+[ -z "$SEEDRUN_JSON" ] && rm -f "$J"
 echo "done $P"
